@@ -2846,6 +2846,8 @@ class DRoc(Output):
     def _plot_core(self, data):
         if self.thresholds is None or len(self.thresholds) != 1:
             verif.util.error("DRoc plot needs a single threshold (use -r)")
+        if re.compile(".*within.*").match(self.bin_type):
+            verif.util.error("A 'within' bin type cannot be used in this diagram")
         threshold = self.thresholds[0]   # Observation threshold
 
         if self._doClassic:
@@ -3157,6 +3159,8 @@ class Performance(Output):
     def _plot_core(self, data):
         if self.thresholds is None or len(self.thresholds) != 1:
             verif.util.error("Performance plot needs a single threshold (use -r)")
+        if re.compile(".*within.*").match(self.bin_type):
+            verif.util.error("A 'within' bin type cannot be used in this diagram")
         threshold = self.thresholds[0]   # Observation threshold
         labels = data.get_legend()
         F = data.num_inputs
@@ -3553,6 +3557,8 @@ class BsDecomp(Output):
     def _plot_core(self, data):
         if self.thresholds is None or len(self.thresholds) != 1:
             verif.util.error("Murphy plot needs a single threshold (use -r)")
+        if re.compile(".*within.*").match(self.bin_type):
+            verif.util.error("A 'within' bin type cannot be used in this diagram")
 
         bsrel = verif.metric.BsRel()
         bsres = verif.metric.BsRes()
